@@ -164,7 +164,9 @@ def Address.string (a : Address) : Bytes :=
     s ++ a.path
 
 /-- the address with the default port filled in (`addrCopy` of InspectServerBlocks) -/
-def Address.filled (a : Address) : Address := if a.port.isEmpty then { a with port := defaultPort } else a
+def Address.filled (a : Address) : Address :=
+  let copy := if a.port.isEmpty then { a with port := defaultPort } else a
+  if copy.path == b!"/" then { copy with path := [] } else copy   -- "host" and "host/" are one site (fix 76cc3c3)
 
 /-- the text under which InspectServerBlocks books a site in `siteAddrs`: Address.String with the default port filled in -/
 def Address.siteString (a : Address) : Bytes := a.filled.string
